@@ -69,3 +69,18 @@ def _d8(f):
     if not re.search(r'(Addition|Multiplication|Division|Subtraction) overflowed', f.get('detail', '')):
         return False
     return re.search(r'(?<![\d.])\d{15,}', f.get('input', '')) is not None
+
+
+@predicate('D11')
+def _d11(f):
+    return f.get('kind') == 'unanswered_panic' and f.get('data', {}).get('class') == 'overflow'
+
+
+@predicate('D12')
+def _d12(f):
+    return f.get('kind') == 'undecodable_frame_ends_session' and 'not json' in f.get('input', '')
+
+
+@predicate('D16')
+def _d16(f):
+    return f.get('kind') == 'unknown_method_unanswered' and f.get('data', {}).get('class') == 'unknown_method'
